@@ -1082,13 +1082,31 @@ def rule_r_unbinding_rebuilds_trie(repo: Repo, rep: Report) -> None:
                 continue
             p = norm(c.args[0])
             from vlib import h_c17 as H
+            # "made under a test that P's current namespace differs": a local that holds store.namespace(P) is, on every path to the call, found unequal
+            # to something by a branch taken after the local got its value - the `!=` outcome of a test, whichever way the test is spelt (`a and b != n` taken,
+            # `not a or b == n` not taken, an early exit on `b == n`, a loop test) - or, as before, the call lies in the body of an `if` whose test holds such a `!=`
+            holders = {nm for nm, ps in looked.items() if p in ps}
             differs = False
             for iff in H.in_true_branch(ns, _stmt_of(ns, c), m):
                 for cmp_ in ast.walk(iff.test):
                     if isinstance(cmp_, ast.Compare) and len(cmp_.ops) == 1 and isinstance(cmp_.ops[0], ast.NotEq):
                         for side in (cmp_.left, cmp_.comparators[0]):
-                            if isinstance(side, ast.Name) and p in looked.get(side.id, ()):
+                            if isinstance(side, ast.Name) and side.id in holders:
                                 differs = True
+            if not differs and holders:
+                if g is None:
+                    g = CFG(m)
+                at = g.node_of(c, ns)
+                for nm in sorted(holders):
+                    def unequal(e: ast.AST, nm=nm):
+                        # e true <=> the local differs from the other operand (True) / equals it (False); anything else says nothing
+                        if isinstance(e, ast.Compare) and len(e.ops) == 1 and isinstance(e.ops[0], (ast.NotEq, ast.Eq)) and any(
+                                isinstance(side, ast.Name) and side.id == nm for side in (e.left, e.comparators[0])):
+                            return isinstance(e.ops[0], ast.NotEq)
+                        return None
+                    if at is not None and H.fact_since_definition(g, at, nm, unequal):
+                        differs = True
+                        break
             if not differs:
                 continue
             n += 1
